@@ -116,6 +116,10 @@ class LayoutShape(PipeShape):
                         z3.Not(z3.Or(*ref.must_reject)) if ref.must_reject else z3.BoolVal(True)))
         if P('C04'):
             obl.append(('C04.accepted_implies_no_two_lines_share_an_address', z3.Not(ref.overlap())))
+            if self.params.get('binary', True):
+                # observed on the image: every byte of every unmuted line is there, at its own address
+                obl.append(('C04.no_byte_of_an_accepted_program_is_replaced_in_the_image',
+                            ref.image_ok(out.image, zv(0), None, zv(0))))
         if P('C02') or P('C05'):
             obl += self._judge_lines(env, out, ref, 'C02' if P('C02') else 'C05')
         if P('C03') and self.params.get('binary', True):
